@@ -2258,7 +2258,8 @@ class _Simu(_IObserver, _params.Updatable, ABC):
             self.Bc_Lagrange,  # type: ignore [arg-type]
         )
         if nBc > 0:
-            nBc += len(self.Bc_dofs_Dirichlet(problemType))
+            # one multiplier per constrained dof (a dof entered several times holds the sum of its entries)
+            nBc += np.unique(self.Bc_dofs_Dirichlet(problemType)).size
         return nBc
 
     @property
